@@ -47,6 +47,16 @@ def parsePositions? (s : String) : Option (List Nat) := do
     | _ => none
   some (items.flatMap id)
 
+/-- verdicts of the sender on many messages; messages whose `u` equals that of `base` reuse the row check values
+    of `base` (`checkAllQ`), the others go through `senderVerdict` -/
+def verdictsMemo (O : Query → IO Bytes) (sid : Bytes) (rc : List Nat) (rs : List (List Nat)) (base : Round1Output)
+    (msgs : List Round1Output) : IO (List Bool) := do
+  let chi ← chiAll O sid base.u
+  let q := (sendWRows rs rc base.u).map (checkRow chi)
+  let nabla := packedNabla rc
+  msgs.mapM fun msg =>
+    if msg.u = base.u then pure (checkAllQ q nabla msg) else senderVerdict O sid rc rs msg
+
 /-- `ss recv <sid> <encKeys> <choices> <tape>`            → `<round1 bytes>:<v_x bytes>:<tape bytes used>`
     `ss send <sid> <randomChoices> <decKeys> <round1>`     → `ok:<v_0 bytes><v_1 bytes>` | `ban`
     `ss adv <sid> <encKeys> <choices> <tape> <devs>[;<devs>…]` → `<round1 bytes>[,<round1 bytes>…]`
@@ -88,7 +98,7 @@ def handle (O : Query → IO Bytes) : List String → IO (Option String)
             (msgs.splitOn ",").mapM parseR1? with
       | some sid, some rc, some keys, some ms =>
           let rs ← sendExpand O sid rc keys
-          let vs ← ms.mapM fun r1 => senderVerdict O sid rc rs r1
+          let vs ← verdictsMemo O sid rc rs (ms.headD { u := [], x := 0, t := [] }) ms
           pure (some (String.ofList (vs.map fun v => if v then '1' else '0')))
       | _, _, _, _ => pure none
   | ["flips", sid, rc, keys, r1, items] => do
@@ -96,7 +106,7 @@ def handle (O : Query → IO Bytes) : List String → IO (Option String)
             parsePositions? items with
       | some sid, some rc, some keys, some r1, some ps =>
           let rs ← sendExpand O sid rc keys
-          let vs ← ps.mapM fun pos => senderVerdict O sid rc rs (tamperBitFast r1 pos)
+          let vs ← verdictsMemo O sid rc rs r1 (ps.map (tamperBitFast r1))
           pure (some (String.ofList (vs.map fun v => if v then '1' else '0')))
       | _, _, _, _, _ => pure none
   | ["tamper", "flip", r1, pos] =>
